@@ -18,6 +18,17 @@ theorem C08_unicast_only_addressee (fuel : Nat) (st : St) (n : Nat) (dst : Ip) (
     (hev : Ev.sw m fid ip false ∈ (ping fuel st n dst pings).1.log) : Owns (cfgOf st) m ip :=
   (G_ping (spec_true (cfgOf st)) fuel st n dst pings ⟨rfl, fun _ _ _ _ _ => trivial, hlog⟩).log m fid ip hev
 
+/-- the same for the service exchange (`NTPClient.request_time` and the server's answer). -/
+theorem C08_unicast_only_addressee_service (fuel : Nat) (st : St) (n : Nat) (server : Ip)
+    (hlog : ∀ m fid ip, Ev.sw m fid ip false ∈ st.log → Owns (cfgOf st) m ip) (m fid : Nat) (ip : Ip)
+    (hev : Ev.sw m fid ip false ∈ (requestService fuel st n server).1.log) : Owns (cfgOf st) m ip := by
+  have hG : G (cfgOf st) (fun _ _ => True) st := ⟨rfl, fun _ _ _ _ _ => trivial, hlog⟩
+  have h1 := hG.modOther n (fun nd => { nd with served := false }) (fun _ => rfl) (fun _ => rfl)
+  have h2 := (gAt (spec_true (cfgOf st)) fuel).icmp _ n server .dataReq h1 trivial
+  unfold requestService at hev
+  simp only at hev
+  split at hev <;> exact h2.log m fid ip hev
+
 /-- … and the interpreter never changes the configuration (interfaces, addresses, gateways, routes), so "owns" means the
 same before and after. -/
 theorem C08_config_static (fuel : Nat) (st : St) (n : Nat) (dst : Ip) (pings : Nat)
